@@ -69,6 +69,8 @@ type World struct {
 	Panic   string
 	Timeout time.Duration
 	IO      IOState
+	PreImage   []byte    // file image before the Flush in progress
+	LastEvents []IOEvent // file calls of the last API call
 	HeapOK  map[string]bool // per collection: no key has been overwritten with a lower priority so far
 	RC      *RefCounter // non-nil when the ref-count callbacks are installed (C15)
 	// counts of item references (C15) are kept by the callbacks in CB when installed
